@@ -202,6 +202,11 @@ pub fn gen_program<F: PrimeField>(rng: &mut ChaChaRng, sh: &Shape) -> GenProg<F>
                 }
             }
             55..=84 => {
+                if rng.gen_range(0..6) == 0 {
+                    // a constraint with no terms at all (0 = 0): it still occupies a power of z
+                    prog.push(COp::Constrain(vec![]));
+                    continue;
+                }
                 let terms = rand_lc(&m, rng, 0);
                 pend_bal.push(((prog.len(), None), terms));
                 balanced.push((prog.len(), None));
@@ -278,6 +283,9 @@ pub fn gen_program<F: PrimeField>(rng: &mut ChaChaRng, sh: &Shape) -> GenProg<F>
                     m.r.push(y.clone());
                     m.o.push(Sx::mul(x.clone(), y.clone()));
                     body.push(ROp::AllocMul(Some((x, y))));
+                }
+                62..=89 if rng.gen_range(0..6) == 0 => {
+                    body.push(ROp::Constrain(vec![]));
                 }
                 62..=89 => {
                     let terms = rand_lc(&m, rng, nch);
